@@ -402,6 +402,14 @@ func c14Scenarios(tier string) []schedScenario {
 	for _, h := range [][]c14op{{{'M', d1}}, {{'Q', d1}, {'M', d2}}, {{'M', d1}, {'I', 1300 * time.Millisecond}, {'M', d1}}, {{'M', d2}, {'S', 0}, {'M', d1}}} {
 		mk(fmt.Sprintf("adjacent-loops P=4ms: %v", h), [][]c14op{h}, 4*time.Millisecond, 1, 0, 0)
 	}
+	// a long and a short timeout started together: the later, shorter deadline must not shorten the clock's life
+	// (the clock keeps 1 s of slop after the last deadline, so the long timeout must exceed short + 1 s to show it)
+	dl := 2500 * time.Millisecond
+	for _, pair := range [][][]c14op{{{{'L', dl}}, {{'Q', d1}}}, {{{'Q', d1}}, {{'L', dl}}}, {{{'L', dl}}, {{'Q', d1}, {'Q', d2}}}} {
+		// no preemptions: the two clients run in lock-step (every operation of one ties with the same operation of
+		// the other), and the tie order is explored up to the tie bound; the long match has 10^4 scheduling points
+		mk(fmt.Sprintf("long+short P=4ms: %v || %v", pair[0], pair[1]), pair, 4*time.Millisecond, 0, 0, 0)
+	}
 	// very large timeouts (just below "forever"): the deadline arithmetic must not overflow; StopTimeoutClock ends
 	// the run because the clock legitimately stays alive until the deadline
 	for _, d := range []time.Duration{time.Duration(math.MaxInt64 - 1), time.Duration(math.MaxInt64) - 50*time.Millisecond, time.Duration(math.MaxInt64) - 200*time.Millisecond, 200 * 365 * 24 * time.Hour} {
